@@ -18,7 +18,7 @@ ID = "C12"
 LEVEL = "model_checking"
 DESIGN_REF = "DESIGN.md 5 C12"
 RULE = (
-    "explicit-state BFS over call histories {write, assemble, clear, backport, delete(op i), move(shared vertex), "
+    "explicit-state BFS over call histories {write, assemble, clear, backport, delete(op i), add (the second box of one model is added by the history), move(shared vertex), "
     "move(private vertex), modify_patch, set_default_patch, merge_patches} with enabledness rules, up to the tier's depth; "
     "a state is the history replayed on a fresh Mesh, deduplicated by a canonical key of the complete library state "
     "(depot points, deleted set, vertices, block indexes, patch table incl. kind/settings, merged pairs, default patch, "
@@ -26,9 +26,8 @@ RULE = (
     "declaration model's normal form. non-trivial = a history that contains at least one life-cycle call before a write"
 )
 ASSUMPTIONS = [
-    "an operation may be deleted at any time; after a deletion in the assembled state, write and move are disabled until the next assembly (clear + assemble, backport): the statement defines what the next assembly gives, not what a write of the present one does",
+    "delete(), add() and merge_patches() on an assembled mesh take effect at once (the mesh is assembled again with its vertices where they are): a write() right after them shows the block gone / added / the slave vertices duplicated",
     "order of patches inside 'boundary' is not compared (dictionary order is immaterial to blockMesh semantics of the listed faces)",
-    "a merge_patches call takes part in vertex duplication only if issued before the assembly that is written",
 ]
 
 # M0 moves corner 1 of the first live operation (shared with the next box unless the interface is
@@ -43,12 +42,18 @@ def variants():
         # the same boxes added to the mesh inside a Shape (operations of shapes can be deleted one by one)
         "shape3": {"cells": [(0, 0, 0), (1, 0, 0), (2, 0, 0)], "bundle": [[0, 1, 2]]},
         "mixed3": {"cells": [(0, 0, 0), (1, 0, 0), (2, 0, 0)], "bundle": [[0], [1, 2]]},
+        # the second box is added by an event of the history (possibly after the mesh was assembled or written)
+        "late2": {"cells": [(0, 0, 0), (1, 0, 0)], "late": [1]},
     }
 
 
 def events_for(variant):
     n = len(variants()[variant]["cells"])
     ev = ["W", "A", "C", "B", "M0", "M1", "P", "P2", "P3", "Q", "R"] + [f"D{i}" for i in range(n)]
+    if variant == "two":
+        ev.append("AS")  # assemble(skip_edges=True)
+    if variants()[variant].get("late"):
+        ev.append("N")
     return ev
 
 
@@ -94,32 +99,30 @@ class Model:
         self.proj = [[] for _ in range(self.n)]
         self.proj[1] = [("corner", 0, "terrain"), ("edge", 0, 3, "terrain"), ("side", "left", "terrain")]
         self.deleted = set()
+        self.added = [i for i in range(self.n) if i not in variants()[variant].get("late", [])]
+        self.late = list(variants()[variant].get("late", []))
         self.assembled = False
+        self.skip_edges = False  # argument of the assemble() call in force (kept by backport)
         self.assembled_ops = []  # operations the assembly in force was made from
         self.moves = []  # pending (op, corner, delta) on assembled vertices
         self.mods = []  # (event, phase) phase: "pre" if before the assembly currently in force
         self.merges_in_force = []  # merges known at the assembly in force
 
-    @property
-    def stale(self):
-        """an operation was deleted after the assembly in force was made: the statement defines what the NEXT
-        assembly (clear + assemble, backport) gives, not what a write of the present one does"""
-        return self.assembled and any(o in self.deleted for o in self.assembled_ops)
-
     def enabled(self, ev):
-        if ev == "A":
+        if ev in ("A", "AS"):
             return not self.assembled
         if ev == "W":
-            return not self.stale
+            return True
         if ev in ("M0", "M1"):
-            return self.assembled and not self.stale
+            return self.assembled
         if ev in ("B", "C"):
             return self.assembled
+        if ev == "N":
+            return bool(self.late)
         if ev[0] == "D":
             i = int(ev[1:])
-            return i not in self.deleted and len(self.deleted) < self.n - 1
-        if ev in ("M0", "M1"):
-            return self.assembled
+            live = [o for o in self.added if o not in self.deleted]
+            return i in live and len(live) >= 2
         return True
 
     def slave_names(self, merges):
@@ -141,16 +144,21 @@ class Model:
 
     def _assemble(self):
         self.assembled = True
-        self.assembled_ops = [i for i in range(self.n) if i not in self.deleted]
+        self.assembled_ops = [i for i in self.added if i not in self.deleted]
         self.mods = [(m, "pre") for m, _ in self.mods]
         self.merges_in_force = [m for m, _ in self.mods if m == "R"]
         self.moves = []
 
     def apply(self, ev):
         if ev == "A":
+            self.skip_edges = False
+            self._assemble()
+        elif ev == "AS":
+            self.skip_edges = True
             self._assemble()
         elif ev == "W":
             if not self.assembled:
+                self.skip_edges = False
                 self._assemble()
         elif ev == "C":
             self.assembled = False
@@ -160,15 +168,28 @@ class Model:
             op = self.assembled_ops[0]
             self.moves.append((op, corner, delta))
         elif ev == "B":
-            # every operation corner that refers to the moved vertex follows it
-            for op, corner, delta in self.moves:
-                for o, c in self.owners(op, corner, self.merges_in_force):
-                    self.pts[o][c] = self.pts[o][c] + np.array(delta)
-            self._assemble()
+            self._backport()
+        elif ev == "N":
+            self.added.append(self.late.pop(0))
+            if self.assembled:
+                self._backport()
         elif ev[0] == "D":
             self.deleted.add(int(ev[1:]))
+            if self.assembled:
+                # a deletion (like an addition or a merge) on an assembled mesh takes effect at once: the mesh is
+                # assembled again with its vertices where they are
+                self._backport()
         else:
             self.mods.append((ev, "post" if self.assembled else "pre"))
+            if ev == "R" and self.assembled:
+                self._backport()
+
+    def _backport(self):
+        # every operation corner that refers to the moved vertex follows it
+        for op, corner, delta in self.moves:
+            for o, c in self.owners(op, corner, self.merges_in_force):
+                self.pts[o][c] = self.pts[o][c] + np.array(delta)
+        self._assemble()
 
 
 def _side(s):
@@ -255,7 +276,11 @@ def replay(variant, history):
     model = Model(variant)
     mesh = cb.Mesh()
     ops = make_ops(model.pts, model.patches, model.proj)
-    add_entities(mesh, ops, variants()[variant].get("bundle"))
+    if model.late:
+        for i in model.added:
+            mesh.add(ops[i])
+    else:
+        add_entities(mesh, ops, variants()[variant].get("bundle"))
     writes = []
     for k, ev in enumerate(history):
         live = [i for i in range(model.n) if i not in model.deleted]
@@ -267,6 +292,8 @@ def replay(variant, history):
                 writes.append((k, open(p).read()))
             elif ev == "A":
                 mesh.assemble()
+            elif ev == "AS":
+                mesh.assemble(skip_edges=True)
             elif ev == "C":
                 mesh.clear()
             elif ev == "B":
@@ -276,6 +303,8 @@ def replay(variant, history):
                 op = model.assembled_ops[0]
                 v = find_vertex(mesh, model.assembled_ops, op, corner)
                 v.move_to(v.position + np.array(delta))
+            elif ev == "N":
+                mesh.add(ops[model.late[0]])
             elif ev[0] == "D":
                 mesh.delete(ops[int(ev[1:])])
             else:
@@ -295,7 +324,7 @@ def reference_text(variant, history_upto):
     model = Model(variant)
     for ev in history_upto:
         model.apply(ev)
-    live = [i for i in range(model.n) if i not in model.deleted]
+    live = [i for i in model.added if i not in model.deleted]
     mesh = cb.Mesh()
     ops = make_ops([model.pts[i] for i in live], [model.patches[i] for i in live], [model.proj[i] for i in live])
     for op in ops:
@@ -303,7 +332,7 @@ def reference_text(variant, history_upto):
     for ev, phase in model.mods:
         if phase == "pre":
             do_mod(mesh, ev)
-    mesh.assemble()
+    mesh.assemble(skip_edges=model.skip_edges)
     for op, corner, delta in model.moves:
         v = find_vertex(mesh, live, op, corner)
         v.move_to(v.position + np.array(delta))
@@ -349,7 +378,7 @@ def impl_key(mesh, ops, model):
     key.append(len(mesh.face_list.faces))
     key.append(len(mesh.vertex_list.duplicated))
     # model part that later events read
-    key.append((model.assembled, tuple(model.moves), tuple(model.mods)))
+    key.append((model.assembled, tuple(model.moves), tuple(model.mods), tuple(model.added), model.skip_edges))
     return tuple(key)
 
 
@@ -384,7 +413,7 @@ def check_history(variant, hist):
 
 
 def _name(ev):
-    return {"W": "write", "A": "assemble", "C": "clear", "B": "backport", "P": "modify_patch", "P2": "modify_patch", "P3": "modify_patch", "Q": "set_default_patch", "R": "merge_patches"}.get(ev, "move" if ev[0] == "M" else "delete")
+    return {"W": "write", "A": "assemble", "C": "clear", "B": "backport", "P": "modify_patch", "P2": "modify_patch", "P3": "modify_patch", "Q": "set_default_patch", "R": "merge_patches", "N": "add", "AS": "assemble"}.get(ev, "move" if ev[0] == "M" else "delete")
 
 
 def run_case(case):
